@@ -80,6 +80,63 @@ def judge(text, std, ic, line_no, line_text):
 
 
 def plan(tier, seed):
+    from mc import layout
+
+    ltasks = []
+    lprogs = layout_programs()
+    for i, (pid, prog) in enumerate(lprogs):
+        for si in range(len(prog)):
+            ltasks.append(("L", i, si, tier))
+    return ltasks + _plan_rest(tier, seed)
+
+
+def layout_programs():
+    from mc import layout
+
+    out = [("E/P5", corpus.corpus()["P5"]), ("E/P6", corpus.corpus()["P6"])]
+    out += [("F/" + name, prog) for name, prog, only in layout.focus_programs()]
+    return out
+
+
+def run_layout(task):
+    """the replaced statement and its predecessor laid out with <= k
+    deviations of the free-form layout model (continuations with blank /
+    comment lines in between, comment tails)"""
+    from mc import layout
+    from mc.grammar import S
+
+    _, pi, si, tier = task
+    pid, prog = layout_programs()[pi]
+    res = Result()
+    small = pid.startswith("F/")
+    k = (2 if small else 1) if tier == "quick" else (3 if small else 2)
+    std = G.prog_std(prog)
+    styles = [(0, 0, 1, 0), (1, 0, 1, 1), (1, 1, 0, 2)]
+    for gi, g in enumerate(GARBAGE[:2] if tier == "quick" else GARBAGE):
+        mutated = list(prog)
+        mutated[si] = S(g, "garbage", "simple")
+        opts = {"only": {si - 1, si}, "styles": styles, "case": False, "indents": False, "gaps": False, "joins": False, "lit_breaks": False, "trailing": False}
+        for vec, ch, lay in explore.explore(lambda ch: layout.render_free(mutated, ch, opts), k if gi == 0 else min(k, 1)):
+            ex = lay.expect[si]
+            text = lay.text
+            ln, lt = ex.last, lay.lines[ex.last - 1]
+            for ic in (True, False) if len([v for v in vec if v]) <= 1 else (True,):
+                res.evals += 1
+                res.transitions += 1
+                hk = h64(text, std, str(ic))
+                res.states.add(hk)
+                res.nontrivial.add(hk)
+                kind, detail = judge(text, std, ic, ln, lt)
+                res.outcomes[kind or "located"] += 1
+                res.results.add(h64(pid, str(ln)))
+                if kind:
+                    feats = ",".join(sorted(f.split(":")[0] for f in lay.features)) or "canonical"
+                    res.violation("C07|%s|layout:%s" % (kind, feats), "%s statement %d replaced by %r, layout vec=%s std=%s ic=%s\n%s\n--- source:\n%s" % (pid, si + 1, g, list(vec), std, ic, detail, text), {"text": text, "std": std, "ic": ic, "line": ln, "line_text": lt, "kind": "layout", "mode": feats, "layout": True}, cost=len(vec) * 100000 + len(text))
+    res.sample({"program": pid, "replaced_statement_index": si, "layout_k": k})
+    return res
+
+
+def _plan_rest(tier, seed):
     tasks = [("E", pid, sh, tier) for pid in sorted(corpus.corpus()) for sh in range(6)]
     names = [n for n, _ in G.EXEC_CONSTRUCTS]
     for d in range(1, BOUNDS[tier]["nest_depth"] + 1):
@@ -98,6 +155,8 @@ def progs_of(task):
 
 
 def run(task):
+    if task[0] == "L":
+        return run_layout(task)
     res = Result()
     b = BOUNDS[task[-1]]
     full = task[0] == "E"
@@ -137,4 +196,6 @@ def run(task):
 
 def replay(case):
     kind, detail = judge(case["text"], case["std"], case["ic"], case["line"], case["line_text"])
+    if case.get("layout"):
+        return [{"sig": "C07|%s|layout:%s" % (kind, case["mode"]), "detail": detail}] if kind else []
     return [{"sig": "C07|%s|%s|%s" % (kind, case["kind"], case["mode"]), "detail": detail}] if kind else []
